@@ -223,14 +223,14 @@ func Compose(dst, src Sliceable, fs feat.Set) error {
 			case SliceReverser:
 				if r == nil {
 					r = src.New().(SliceReverser)
-					if _, ok := src.Alphabet().(alphabet.Complementor); ok {
-						r.SetAlphabet(src.Alphabet())
-						r.SetSlice(ts)
-						r.RevComp()
-					} else {
-						r.SetSlice(ts)
-						r.Reverse()
-					}
+				}
+				if _, ok := src.Alphabet().(alphabet.Complementor); ok {
+					r.SetAlphabet(src.Alphabet())
+					r.SetSlice(ts)
+					r.RevComp()
+				} else {
+					r.SetSlice(ts)
+					r.Reverse()
 				}
 			default:
 				return errors.New("sequtils: unable to reverse segment during compose")
